@@ -14,8 +14,16 @@ def choose_versions(run, exe, U, acc, rnd, nclass, nsingle):
     part = {e: dict(U[e]) for e in U}
     jobs = []
     sample = {}
+    # plain numeric versions spelled with 1-4 parts (1, 1.0, 1.0.0, 1.0.0.0, v1.0, ...): the bases of the shorthand
+    # rows and their equal-comparing spellings, so that every run holds classes around the range bounds
+    fam = {e: [pre + ".".join(str(n) for n in ns) for pre in ("", "v")
+               for ns in ([x] + [0] * k for x in (0, 1, 2, 9, 10) for k in range(4))] +
+              ["%d.%d%s" % (x, y, z) for x in (0, 1, 2) for y in (1, 2, 10) for z in ("", ".0", ".0.0")] for e in ECOS}
+    fam = vlib.accept_filter(run, exe, fam, name="fam")
+    famset = {e: set(fam[e]) for e in ECOS}
     for e in ECOS:
         sample[e] = rnd.sample(acc[e], min(len(acc[e]), 420 if run.tier == "quick" else 3000))
+        sample[e] += [t for t in fam[e] if t not in set(sample[e])]
         jobs.append({"k": "matrix", "eco": e, "tag": "pre", "texts": sample[e], "part": [part[e].get(t, 0) for t in sample[e]]})
     jp, ep = run.path("pre.jobs"), run.path("pre.ev")
     vlib.write_ndjson(jp, jobs); vlib.run_harness(run, exe, jp, ep)
@@ -31,9 +39,13 @@ def choose_versions(run, exe, U, acc, rnd, nclass, nsingle):
             seen.update(cl)
             if len(cl) > 1: classes.append(cl)
         rnd.shuffle(classes)
+        famcl = [cl for cl in classes if any(T[i] in famset[e] for i in cl)]
+        classes = famcl + [cl for cl in classes if cl not in famcl]
         chosen = []
-        for cl in classes[:nclass]:
-            chosen += rnd.sample(cl, min(len(cl), 3))
+        for cl in classes[:max(nclass, len(famcl) + nclass // 2)]:
+            infam = [i for i in cl if T[i] in famset[e]]
+            pickfrom = rnd.sample(infam, min(len(infam), 3))
+            chosen += pickfrom + rnd.sample([i for i in cl if i not in pickfrom], min(len(cl) - len(pickfrom), 3 - len(pickfrom)))
         rest = [i for i in range(len(T)) if i not in set(chosen)]
         chosen += rnd.sample(rest, min(len(rest), nsingle))
         out[e] = [T[i] for i in sorted(set(chosen))]
